@@ -46,9 +46,9 @@ def main():
         def col(vals):
             return vals
         narrow = None
-        if kind in ("int32", "uint8", "int16", "uint64", "float32", "datetime_s", "datetime_ms", "datetime_ns"):
+        if kind in ("int32", "uint8", "int16", "uint64", "float32", "datetime_s", "datetime_ms", "datetime_ns", "int_be", "float_be", "datetime_be", "date_be"):
             narrow = kind
-            kind = {"float32": "floatna"}.get(kind, "datetime" if kind.startswith("datetime_") else "int")
+            kind = {"float32": "floatna", "float_be": "floatna", "date_be": "date"}.get(kind, "datetime" if kind.startswith("datetime_") else "int")
         if kind == "bool":
             a = [True, False, True, True, False, False, True, False, True]
             b = a
@@ -103,18 +103,23 @@ def main():
             off_v = [1.7e9 + v + 0.5 for v in off_i]
         else:
             off_v = None
+        # layout 7 (float only): infinities inside groups (inf - inf and 0 * inf arise in interpolating / accumulating formulas)
+        inf_g = [1, 1, 1, 2, 2, 3, 3, 3, 4, 4, 5, 5, 5, 5]
+        inf_v = [1.0, math.inf, 3.0, -math.inf, 2.0, math.inf, -math.inf, 1.0, math.inf, math.inf, 1.0, 2.0, math.inf, 4.0] if k == "float" else None
         g1 = [2, 1, 1, 3, 3, 3, 1, 2, 2]
         g2 = [1, 1, 2, 2, 2, 3, 3, 3, 3]
         g3 = [5] * 9
         if narrow:
             # the same layouts in a narrower / differently-united dtype of the same family
-            if narrow.startswith("datetime_"):
+            if narrow.startswith("datetime_") and narrow != "datetime_be":
                 a = [None if d is None else d.replace(microsecond=0) for d in a]
                 b = [None if d is None else d.replace(microsecond=0) for d in b]
+            elif narrow.endswith("_be"):
+                pass
             elif narrow != "float32":
                 a = [abs(v) for v in a]; b = [abs(v) for v in b]
             return [[("g", "int", g1), ("x", narrow, a)], [("g", "int", g2), ("x", narrow, b)], [("g", "int", g3), ("x", narrow, a)]]
-        return [[("g", "int", g1), ("x", k, a)], [("g", "int", g2), ("x", k, b)], [("g", "int", g3), ("x", k, a)], [("g", "int", ties_g), ("x", k, ties_v)], [("g", "int", big_g), ("x", k, big_v)]] + ([[("g", "int", off_g), ("x", k, off_v)]] if off_v else [])
+        return [[("g", "int", g1), ("x", k, a)], [("g", "int", g2), ("x", k, b)], [("g", "int", g3), ("x", k, a)], [("g", "int", ties_g), ("x", k, ties_v)], [("g", "int", big_g), ("x", k, big_v)]] + ([[("g", "int", off_g), ("x", k, off_v)]] if off_v else []) + ([[("g", "int", inf_g), ("x", k, inf_v)]] if inf_v else [])
 
     helper_objects = {}
     def make(h, ha, hk):
@@ -188,7 +193,8 @@ def main():
             elif on["dtype"] != off["dtype"]:
                 diff = "result-type"
         if diff:
-            out["disagreements"].append({"tag": tag, "helper": helper, "kw": kw, "kind": kind, "diff": diff,
+            has_inf = any(isinstance(v, float) and math.isinf(v) for name, _, vals in spec if name == "x" for v in vals)
+            out["disagreements"].append({"tag": tag, "helper": helper, "kw": kw, "kind": kind, "diff": diff, "inf": has_inf,
                                          "on": {k: (repr(v)[:400] if k == "cells" else v) for k, v in on.items()},
                                          "off": {k: (repr(v)[:400] if k == "cells" else v) for k, v in off.items()},
                                          "spec": repr(spec)[:700]})
